@@ -39,9 +39,9 @@ ASSUME = [
     "natural alignment of a native type is its size; x86-64 SysV ABI of this machine (gcc 12, ctypes) stands for 'every C compiler'",
     "a padding field is recognised by its name 'padding_<n>_'; the generator never uses such names for user fields",
     "equality of the padded size with the natural sizeof (minimal padding) is asserted because 'accepted exactly when it needs none' defines what is needed; it has its own finding key (padding-not-minimal)",
-    "arrays declared with length 0 are excluded (known separate defect: C emits a zero-length array, the other outputs a scalar)",
-    "fields whose type is an alias of an imported struct are excluded (known separate defect: TypeError in the size check)",
+    "arrays declared with length 0 are not layouts (rejected as a syntax error since the fix of F21) and are not generated",
     "a gcc failure or timeout on a generated header is counted as inconclusive, never as a violation (loading in C is property C15)",
+    "a parse that does not return within 45 s (normal: milliseconds) is interrupted and counted as inconclusive; after three of them a shard stops feeding the compiler",
     "with validate_alignment off nothing is claimed by the property; such programs are not part of this check",
 ]
 
@@ -122,6 +122,9 @@ def nontrivial(p: G.Program, name: str) -> bool:
 # one program
 
 
+TIMEOUTS = {"n": 0}
+
+
 def check_program(p: G.Program, res: Result = None, gcc: bool = False, only=None):
     if not p.validate_alignment:
         raise HarnessError("C11 needs validate_alignment on")
@@ -129,7 +132,17 @@ def check_program(p: G.Program, res: Result = None, gcc: bool = False, only=None
     exp, at = expected_outcome(p)
     if p.expect is not None and (p.expect["outcome"], p.expect["at"]) != (exp, at):
         raise HarnessError(f"generator expectation {p.expect} disagrees with the layout model {(exp, at)}")
-    out = G.parse_program(p, keep=gcc)
+    if TIMEOUTS["n"] >= 3:
+        return  # the compiler keeps hanging: stop feeding it (what was found so far is reported)
+    out = G.parse_program(p, keep=gcc, timeout=45.0)
+    if out.outcome == "Timeout":
+        TIMEOUTS["n"] += 1
+        if res is not None:
+            res.inconclusive += 1
+            res.count("inconclusive/parser-did-not-return-within-45s")
+        if gcc and out.root:
+            shutil.rmtree(_top(p, out.root), ignore_errors=True)
+        return
     try:
         _judge(p, out, exp, at, trace, res, gcc, only)
     finally:
@@ -249,7 +262,7 @@ def _judge(p, out, exp, at, trace, res, gcc, only):
     if res is not None:
         res.count("programs")
         res.count(f"outcome/ok/auto_pad-{ap}")
-        for c in ("boundary-size", "explicit-padding", "struct-array", "alias-field", "nested-align-1", "nested-align-2", "nested-align-4",
+        for c in ("boundary-size", "explicit-padding", "struct-array", "alias-field", "alias-of-imported-struct", "alias-of-imported-struct-field", "struct-contains-message", "nested-align-1", "nested-align-2", "nested-align-4",
                   "nested-align-8", "cross-file-struct-field", "expr-length", "message-in-message"):
             if c in p.classes:
                 res.count("class/" + c)
@@ -430,7 +443,8 @@ def shard(idx: int, nshards: int, seed: int, n_layout: int, n_general: int, gcc_
     sb = G.ShrinkBudget(15)
     hyp_run(sb.body(body), sb.wrap(G.layout_programs()), seed, n_layout, res)
     sb = G.ShrinkBudget(15)
-    hyp_run(sb.body(body), sb.wrap(G.programs(validate_alignment=True, import_coredefs=False, max_files=4)), seed + 1, n_general, res)
+    hyp_run(sb.body(body), sb.wrap(G.programs(validate_alignment=True, import_coredefs=False, max_files=4,
+                                             allow=("alias-of-imported-struct", "alias-of-imported-struct-field", "struct-contains-message"))), seed + 1, n_general, res)
     return res
 
 
